@@ -271,6 +271,7 @@ func runC09(c *Ctx) {
 	c.rule("A7", "after a context-carrying step has failed, no further mutating effect happens unless the failure was first found not to be a cancellation/timeout, or the context is consulted again", 1)
 	c.rule("A8", "a copy of n bytes: the count n reaches io.CopyN (which reports a short source as EOF), or the number of bytes transferred is compared with n before success is reported", 1)
 	c.rule("A11", "ReadFileContent: the 'too large' refusal is also decided on what was actually read (the size Stat() reports cannot always be trusted)", 1)
+	c.rule("A13", "ReadAtMost: the requested maximum becomes the capacity reserved upfront only where it was found to be at most a constant bound", 1)
 	c.rule("A12", "entry gate, kinds: no error other than that of a closed resource is returned before the context has been consulted", 45)
 	c.rule("A9", "a bounded read: the raw source is read only through io.LimitReader(src, max), except on the side of the branch where max is negative (no bound requested)", 1)
 	c.rule("A10", "in the context-carrying functions of package filesystem no byte is moved by a direct Read/Write on a handle or by a bare io.Copy/io.ReadAll: transfers go through the safeio helpers or a contextual wrapper", 3)
@@ -386,6 +387,7 @@ func runC09(c *Ctx) {
 	s.freshContexts()
 	s.exactN()
 	s.boundedRead()
+	s.boundedReservation()
 	s.rawTransfers()
 }
 
@@ -1277,4 +1279,123 @@ func (s *c09State) rawTransfers() {
 		})
 	}
 	c.Extra["context_aware_transfers"] = nOK
+}
+
+// boundedReservation (A13): "a bounded read returns … the whole source when it is shorter [than the maximum]" — for any
+// maximum. The maximum says how much may be read, not how much there is: reserving it upfront makes a short source read
+// with a large maximum exhaust the memory (or panic in makeslice) instead of returning its few bytes. Where the maximum
+// flows into the capacity of the buffer, it was compared with a constant bound first.
+func (s *c09State) boundedReservation() {
+	c := s.c
+	f := c.fn("safeio", "ReadAtMost")
+	if f == nil {
+		return
+	}
+	mi := paramIndexByName(f, "max")
+	key := fname(f) + "/reservation-bounded"
+	var mk *ssa.MakeSlice
+	allInstrs(f, func(in ssa.Instruction) {
+		if m, ok := in.(*ssa.MakeSlice); ok {
+			mk = m
+		}
+	})
+	if mk == nil || mi < 0 {
+		c.ok("A13", key, c.pos(f.Pos()), "no buffer is reserved upfront from the maximum")
+		return
+	}
+	max := f.Params[mi]
+	// the edges through which `max` reaches the capacity
+	bad := ""
+	seen := map[ssa.Value]bool{}
+	var walk func(v ssa.Value, at *ssa.BasicBlock)
+	walk = func(v ssa.Value, at *ssa.BasicBlock) {
+		if v == nil || seen[v] {
+			return
+		}
+		seen[v] = true
+		switch x := v.(type) {
+		case *ssa.Phi:
+			for i, e := range x.Edges {
+				if resolveValue(e) == ssa.Value(max) {
+					// the predecessor must lie on a side of a comparison of max with a positive constant that bounds it above
+					pred := x.Block().Preds[i]
+					bounded := false
+					for _, b := range f.Blocks {
+						ifi, ok := b.Instrs[len(b.Instrs)-1].(*ssa.If)
+						if !ok {
+							continue
+						}
+						for side := 0; side < 2; side++ {
+							if !(b.Succs[side] == pred || b.Succs[side].Dominates(pred)) {
+								continue
+							}
+							if c09BoundsAbove(ifi.Cond, max, side == 0, 0) {
+								bounded = true
+							}
+						}
+					}
+					if !bounded {
+						bad = c.ipos(x)
+					}
+				} else {
+					walk(e, x.Block())
+				}
+			}
+		case *ssa.Convert:
+			walk(x.X, at)
+		case *ssa.ChangeType:
+			walk(x.X, at)
+		case *ssa.Parameter:
+			if x == max {
+				bad = c.ipos(mk)
+			}
+		}
+	}
+	walk(mk.Cap, mk.Block())
+	c.check(bad == "", "A13", key, c.ipos(mk), "the maximum reaches the capacity reserved upfront only below a constant bound",
+		"the requested maximum becomes the capacity of the buffer reserved upfront without having been compared with a bound: a short source read with a large maximum (1<<40, math.MaxInt64) exhausts the memory or panics in makeslice instead of returning the source")
+}
+
+// c09BoundsAbove: on the given side (true/false) of cond, p is known to be at most a constant.
+func c09BoundsAbove(cond ssa.Value, p *ssa.Parameter, side bool, depth int) bool {
+	if depth > 4 {
+		return false
+	}
+	switch x := cond.(type) {
+	case *ssa.UnOp:
+		if x.Op == token.NOT {
+			return c09BoundsAbove(x.X, p, !side, depth+1)
+		}
+	case *ssa.BinOp:
+		isP := func(v ssa.Value) bool { return resolveValue(v) == ssa.Value(p) }
+		isK := func(v ssa.Value) bool { k, ok := constInt(v); return ok && k > 0 }
+		switch {
+		case isP(x.X) && isK(x.Y):
+			// p > K / p >= K bounds on the false side; p < K / p <= K on the true side
+			if (x.Op == token.GTR || x.Op == token.GEQ) && !side {
+				return true
+			}
+			if (x.Op == token.LSS || x.Op == token.LEQ) && side {
+				return true
+			}
+		case isK(x.X) && isP(x.Y):
+			if (x.Op == token.LSS || x.Op == token.LEQ) && !side {
+				return true
+			}
+			if (x.Op == token.GTR || x.Op == token.GEQ) && side {
+				return true
+			}
+		}
+	case *ssa.Phi:
+		// short-circuit `a || b`: on the false side both are false; `a && b`: on the true side both are true
+		for _, e := range x.Edges {
+			if _, isC := constBool(e); isC {
+				continue
+			}
+			if c09BoundsAbove(e, p, side, depth+1) {
+				return true
+			}
+		}
+	}
+	return false
 }
